@@ -7,6 +7,7 @@ import (
 	"math/rand"
 	"os"
 	"path/filepath"
+	"runtime/debug"
 	"sort"
 	"strconv"
 	"strings"
@@ -156,7 +157,17 @@ func genMain(args []string) {
 		counts: map[string]int{}, distinct: map[string]bool{}, thorough: tier == "thorough" || tier == "search", out: out, t0: time.Now()}
 	os.MkdirAll(out, 0o755)
 	os.Remove(filepath.Join(out, "findings.partial.jsonl"))
-	f(g)
+	func() {
+		// a panic inside a generator is a defect of this harness, not of the library (library panics are caught per
+		// operation in execOp); make that unmistakable in the message the check prints
+		defer func() {
+			if r := recover(); r != nil {
+				fmt.Fprintf(os.Stderr, "HARNESS-INTERNAL-ERROR in generator %s (seed %d): %v\n%s\n", prop, seed, r, debug.Stack())
+				os.Exit(3)
+			}
+		}()
+		f(g)
+	}()
 	for _, m := range g.st.mutations {
 		g.check(false, "input-mutated", "a call modified one of its input buffers: "+trunc(m, 200), m)
 	}
